@@ -26,12 +26,46 @@ def _norm(e: ast.AST) -> str:
 
 
 # ---------------------------------------------------------------------------------------------------------- P1, P5
+def _unbool(e: ast.expr) -> ast.expr:
+    if isinstance(e, ast.Call) and isinstance(e.func, ast.Name) and e.func.id == "bool" and len(e.args) == 1 and not e.keywords:
+        return e.args[0]
+    return e
+
+
+def _is_boolean(e: ast.expr) -> bool:
+    return isinstance(e, ast.Compare) or (isinstance(e, ast.UnaryOp) and isinstance(e.op, ast.Not)) or \
+        (isinstance(e, ast.BoolOp) and all(_is_boolean(v) for v in e.values))
+
+
 class _Small(ast.NodeTransformer):
+    # `bool(X)` in a boolean context is X
+    def visit_UnaryOp(self, n: ast.UnaryOp) -> ast.AST:
+        self.generic_visit(n)
+        if isinstance(n.op, ast.Not):
+            n.operand = _unbool(n.operand)
+        return n
+
+    def visit_BoolOp(self, n: ast.BoolOp) -> ast.AST:
+        self.generic_visit(n)
+        return n
+
+    def visit_If(self, n: ast.If) -> ast.AST:
+        self.generic_visit(n)
+        n.test = _unbool(n.test)
+        return n
+
+    def visit_While(self, n: ast.While) -> ast.AST:
+        self.generic_visit(n)
+        n.test = _unbool(n.test)
+        return n
+
     def visit_Call(self, n: ast.Call) -> ast.AST:
         self.generic_visit(n)
         if isinstance(n.func, ast.Attribute) and n.func.attr == "get" and len(n.args) == 2 and not n.keywords \
                 and isinstance(n.args[1], ast.Constant) and n.args[1].value is None:
             n.args = n.args[:1]
+        if isinstance(n.func, ast.Name) and n.func.id == "bool" and len(n.args) == 1 and not n.keywords and _is_boolean(n.args[0]):
+            return n.args[0]      # bool() of something that is already a bool
         if isinstance(n.func, ast.Name) and n.func.id == "set" and len(n.args) == 1 and not n.keywords and isinstance(n.args[0], ast.GeneratorExp):
             g = n.args[0]
             return ast.copy_location(ast.SetComp(elt=g.elt, generators=g.generators), n)
@@ -302,6 +336,32 @@ def _split_tuple_assign(block: list[ast.stmt]) -> None:
         i += 1
 
 
+def _ifelse_temp_to_expr(fn: T.Any) -> None:
+    """`if C: t = A else: t = B` for a temporary the inliner generated  ->  `t = <A if C else B>` (boolean constants folded)."""
+    for b in list(_blocks(fn)):
+        for i, st in enumerate(b):
+            if isinstance(st, ast.If) and len(st.body) == 1 and len(st.orelse) == 1 and all(isinstance(x, ast.Assign) and len(x.targets) == 1 and isinstance(x.targets[0], ast.Name) for x in (st.body[0], st.orelse[0])):
+                ta, tb = st.body[0].targets[0].id, st.orelse[0].targets[0].id
+                if ta == tb and "__" in ta:
+                    A, B = st.body[0].value, st.orelse[0].value
+                    ca = A.value if isinstance(A, ast.Constant) and isinstance(A.value, bool) else None
+                    cb = B.value if isinstance(B, ast.Constant) and isinstance(B.value, bool) else None
+                    neg = ast.UnaryOp(op=ast.Not(), operand=st.test)
+                    if ca is True:
+                        e: ast.expr = ast.BoolOp(op=ast.Or(), values=[st.test, B])
+                    elif cb is False:
+                        e = ast.BoolOp(op=ast.And(), values=[st.test, A])
+                    elif ca is False:
+                        e = ast.BoolOp(op=ast.And(), values=[neg, B])
+                    elif cb is True:
+                        e = ast.BoolOp(op=ast.Or(), values=[neg, A])
+                    else:
+                        e = ast.IfExp(test=st.test, body=A, orelse=B)
+                    new_st = ast.copy_location(ast.Assign(targets=[ast.Name(id=ta, ctx=ast.Store())], value=e), st)
+                    ast.fix_missing_locations(new_st)
+                    b[i] = new_st
+
+
 def _collapse_generated_temps(fn: T.Any) -> None:
     """`x__helperN = E` directly followed by `t = x__helperN` (the temporary the inliner made, used once)  ->  `t = E`."""
     loads: dict[str, int] = {}
@@ -353,5 +413,6 @@ def canonicalise(tree: ast.Module) -> None:
         for b in list(_blocks(fn)):
             _accumulators(b)
             _split_tuple_assign(b)
+        _ifelse_temp_to_expr(fn)
         _collapse_generated_temps(fn)
     ast.fix_missing_locations(tree)
